@@ -50,6 +50,26 @@ func depositProbe(c *vc.Ctx, idx int, label string, sizes []int, evmFor func(n i
 		_, schn := key.Key.(*relayertypes.PublicKey_Schnorr)
 		txs := []*wire.MsgTx{b.bc.CoinbaseTx(b.bc.Tip + 1)}
 		var ds []*depTruth
+		if k == 1 {
+			// a block of one transaction: the coinbase itself pays the deposit (empty inclusion path, position 0); it needs
+			// 100 voted blocks above it
+			version := uint32(n % 2)
+			if schn || scriptFor != nil {
+				version = 0
+			}
+			var evm []byte
+			if evmFor != nil {
+				evm = evmFor(n)
+			}
+			if evm == nil {
+				evm = b.newEvm()
+			}
+			n++
+			value := uint64(1_000_000 + 1000*n)
+			outs, vout := b.depositOutputs(key, evm, version, value, 0)
+			txs = []*wire.MsgTx{b.bc.CoinbaseTx(b.bc.Tip+1, outs...)}
+			ds = append(ds, &depTruth{Vout: vout, Value: value, Version: version, Key: key, Evm: evm, Index: 0})
+		}
 		for p := 1; p < k; p++ {
 			version := uint32((n + p) % 2)
 			if schn {
@@ -87,9 +107,13 @@ func depositProbe(c *vc.Ctx, idx int, label string, sizes []int, evmFor func(n i
 			b.deps = append(b.deps, d)
 			b.byID[d.id()] = d
 		}
-		b.bc.MineEmpty(int(b.params().ConfirmationNumber) + 2)
+		depth := b.params().ConfirmationNumber + 1
+		if k == 1 {
+			depth = 101
+		}
+		b.bc.MineEmpty(int(depth) + 1)
 		// vote until the deposits' block is deep enough
-		for guard := 0; b.votedTip < blk.Height+b.params().ConfirmationNumber+1 && guard < 40; guard++ {
+		for guard := 0; b.votedTip < blk.Height+depth && guard < 60; guard++ {
 			if !b.refreshGroup() {
 				return results, false
 			}
@@ -100,7 +124,7 @@ func depositProbe(c *vc.Ctx, idx int, label string, sizes []int, evmFor func(n i
 				return results, false
 			}
 		}
-		if b.votedTip < blk.Height+b.params().ConfirmationNumber {
+		if b.votedTip < blk.Height+depth-1 {
 			c.Inconclusive("the probe could not get the Bitcoin blocks voted (tip %d, block %d)", b.votedTip, blk.Height)
 			return results, false
 		}
